@@ -87,12 +87,14 @@ Sites == {"child-pointer", "rightmost-pointer", "overflow-first", "overflow-next
           "payload-length", "record-header-size", "serial-type", "rowid-varint", "page-type", "master-rootpage",
           "master-sql", "header-field", "truncate", "free-bytes", "journal-bytes", "byte-sweep", "journal-header"}
 Classes == {"zero", "self", "root", "other-kind", "beyond-file", "max32", "huge-length", "negative-varint", "plus-one",
-            "minus-one", "doubled", "random-byte", "text-garbage", "cut", "shortened", "inconsistent"}
+            "minus-one", "doubled", "random-byte", "text-garbage", "cut", "shortened", "inconsistent", "window"}
 \* which classes make sense at which site
 Applies(site, class) ==
     CASE site \in {"child-pointer", "rightmost-pointer", "overflow-first", "overflow-next", "master-rootpage"} ->
             class \in {"zero", "self", "root", "other-kind", "beyond-file", "max32"}
-      [] site \in {"cell-count", "cell-pointer"} -> class \in {"zero", "plus-one", "doubled", "max32", "random-byte"}
+      \* "window": every cell count for which the pointer array ends within the last 64 bytes of the page or just beyond it
+      [] site = "cell-count" -> class \in {"zero", "plus-one", "doubled", "max32", "random-byte", "window"}
+      [] site = "cell-pointer" -> class \in {"zero", "plus-one", "doubled", "max32", "random-byte"}
       \* "shortened": a payload length reduced by 2..8, so that the record ends inside its last value, whatever its width
       [] site = "payload-length" -> class \in {"zero", "plus-one", "minus-one", "doubled", "huge-length", "negative-varint", "shortened"}
       [] site \in {"record-header-size", "serial-type", "rowid-varint"} ->
